@@ -4,12 +4,14 @@ Unknown or malformed requests answer {"err": "..."} (never a default).
 -/
 import Driver.Util
 import Driver.ArgStore
+import Driver.Graph
 open Lean Driver
 
 def dispatch (req : Json) : R Json := do
   let p ← jstr (← jget req "p")
   match p with
   | "argstore" => Driver.ArgStore.handle req
+  | "graph" => Driver.Graph.handle req
   | _ => throw "bad-op"
 
 partial def loop (hin : IO.FS.Stream) (hout : IO.FS.Stream) : IO Unit := do
